@@ -33,4 +33,4 @@ Fixpoint idx_filter (f : case -> bool) (i : N) (cs : list case) : list N :=
 Definition mismatches (cs : list case) : list N :=
   idx_filter (fun c => negb (cobs_eqb (model_obs (c_in c)) (c_obs c))) 0%N cs.
 Definition violations (cs : list case) : list N :=
-  idx_filter (fun c => negb (C02_check crc32 (c_in c) (c_obs c))) 0%N cs.
+  idx_filter (fun c => negb (C02_check crc32 sha1_bytes (c_in c) (c_obs c))) 0%N cs.
